@@ -15,7 +15,7 @@ import (
 // supporting obligation kinds: needed for the modular soundness of every labelled result
 var supportingKinds = map[string]bool{
 	"pre": true, "frame": true, "inv-entry": true, "inv-preserved": true, "decreases": true,
-	"panic": true, "assert": true, "crash_inv": true,
+	"panic": true, "assert": true, "crash_inv": true, "footprint": true,
 }
 
 // safety kinds: run-time panics, counted for C15
